@@ -5,12 +5,17 @@ C01 — executable model of the dense matrix / vector operations of dune-common 
 
 * `Rep K` : the representations a matrix can come in — `full` (FieldMatrix, DynamicMatrix: the generic
   `DenseMatrix` kernels), `diag` (DiagonalMatrix: its own kernels), `scalar` (ScalarMatrixView: a `DenseMatrix`
-  of shape 1x1), `transposed r` (TransposedMatrixWrapper around `r`: forwards the kernels it offers).
+  of shape 1x1), `transposed r` (TransposedMatrixWrapper around `r`: forwards the kernels it offers; wrappers nest).
 * `repKernel` runs kernel `k` on a representation through the tables generated from the source
   (`Gen.denseSig`, `Gen.diagSig`, `Gen.wrapFwd`).
-* matrix-matrix products, `leftmultiply/rightmultiply(any)`, `transposed`, and the vector-space operations,
-  written as the loops of fmatrix.hh / densematrix.hh / densevector.hh (the accumulation order of every
-  inner product loop is kept: `acc = 0; acc += a*b` for k = 0, 1, …).
+* matrix-matrix products, `leftmultiply/rightmultiply(any)`, `multMatrix`, `multTransposedMatrix`, `transposed` are the
+  loop nests `prodSem` / `transSem` run on the tables `Gen.psig_*` / `Gen.tsig_*` that the translator reads from
+  fmatrix.hh / densematrix.hh / dynmatrix.hh; `multAssign*` are `kernelSem` on `Gen.sig_multAssign*`.
+* the vector operations of densevector.hh are the elementwise loops `elemSem` on the tables `Gen.vsig_*`; the dot products
+  use the argument order and the conjugated argument read from densevector.hh / dotproduct.hh.
+* hand-written (tied to the code by the differential run only): the FieldMatrix<K,1,1> / FieldVector<K,1> specialisations,
+  the FieldMatrix / FieldVector operators with a scalar (`*`, `/`), `FieldMatrix ± FieldMatrix`, the row-wise delegation of
+  the DenseMatrix compound assignments to the vector operations, DiagonalMatrix * DiagonalMatrix, conversions.
 -/
 namespace DV.C01
 
@@ -68,14 +73,16 @@ def repKernel (conj : K → K) : KName → Rep K → K → (Nat → K) → Vec K
 /-- a freshly constructed (value-initialised) result vector of size `n` -/
 def zeroVec (n : Nat) : Vec K := ⟨n, fun _ => 0⟩
 
+/-- a freshly constructed (value-initialised) matrix -/
+def zeroMat (r c : Nat) : Mat K := ⟨r, c, fun _ _ => 0⟩
+
 /-! ### matrix-matrix products -/
 
 /-- `acc = 0; for (k = 0; k < n; ++k) acc += f k` -/
 def sumLoop (n : Nat) (f : Nat → K) : K := forN n (fun k acc => acc + f k) 0
 
-/-- fmatrix.hh `operator*(FieldMatrix, FieldMatrix)`, `FMatrixHelp::multMatrix` -/
-def matmul (A B : Mat K) : Mat K :=
-  ⟨A.rows, B.cols, fun i j => sumLoop A.cols (fun k => A.e i k * B.e k j)⟩
+/-- fmatrix.hh `operator*(FieldMatrix, FieldMatrix)`: the loop nest `Gen.psig_fmMul` on a fresh `result` -/
+def matmul (A B : Mat K) : Mat K := prodSem Gen.psig_fmMul A B (zeroMat A.rows B.cols)
 
 /-- fmatrix.hh, class FieldMatrix<K,1,1>: `result[0][j] = matrixA[0][0] * matrixB[0][j]` -/
 def matmul11 (A B : Mat K) : Mat K := ⟨1, B.cols, fun _ j => A.e 0 0 * B.e 0 j⟩
@@ -96,89 +103,152 @@ def mulTransposedView (conj : K → K) (k : KName) (A : Mat K) (B : Rep K) : Mat
 /-- diagonalmatrix.hh `operator*(DiagonalMatrix, DiagonalMatrix)` -/
 def mulDiag (d e : Nat → K) : Nat → K := fun i => d i * e i
 
-/-- densematrix.hh `leftmultiply`: `C = *this; this[i][j] = 0; for k < rows: this[i][j] += M[i][k]*C[k][j]` -/
-def leftmultiply (A M : Mat K) : Mat K :=
-  ⟨A.rows, A.cols, fun i j => sumLoop A.rows (fun k => M.e i k * A.e k j)⟩
+/-- densematrix.hh `leftmultiply(M)`: `C = *this`; the nest `Gen.psig_dmLeftmultiply` writes `*this` from `M` and `C` -/
+def leftmultiply (A M : Mat K) : Mat K := prodSem Gen.psig_dmLeftmultiply M A A
 
-/-- densematrix.hh / fmatrix.hh `rightmultiply`: `this[i][j] += C[i][k]*M[k][j]`, k < cols -/
-def rightmultiply (A M : Mat K) : Mat K :=
-  ⟨A.rows, A.cols, fun i j => sumLoop A.cols (fun k => A.e i k * M.e k j)⟩
+/-- densematrix.hh `rightmultiply(M)`: `C = *this`; the nest `Gen.psig_dmRightmultiply` writes `*this` from `C` and `M` -/
+def rightmultiply (A M : Mat K) : Mat K := prodSem Gen.psig_dmRightmultiply A M A
+
+/-- fmatrix.hh `FieldMatrix::rightmultiply(FieldMatrix)` (its own overload, same construction) -/
+def rightmultiplyFM (A M : Mat K) : Mat K := prodSem Gen.psig_fmRightmultiply A M A
 
 /-- FieldMatrix<K,1,1>::rightmultiply: `_data[0] *= M[0][0]` -/
 def rightmultiply11 (A M : Mat K) : Mat K := ⟨1, 1, fun _ _ => A.e 0 0 * M.e 0 0⟩
 
-/-- fmatrix.hh `leftmultiplyany`: `C[i][j] += M[i][k]*this[k][j]`, `M` is l x rows -/
-def leftmultiplyany (A M : Mat K) : Mat K :=
-  ⟨M.rows, A.cols, fun i j => sumLoop A.rows (fun k => M.e i k * A.e k j)⟩
+/-- fmatrix.hh `leftmultiplyany(M)`: `M` is l x rows; the nest `Gen.psig_fmLeftmultiplyany` on a fresh `C` -/
+def leftmultiplyany (A M : Mat K) : Mat K := prodSem Gen.psig_fmLeftmultiplyany M A (zeroMat M.rows A.cols)
 
 /-- FieldMatrix<K,1,1>::leftmultiplyany: `C[j][0] = M[j][0]*(*this)[0][0]` -/
 def leftmultiplyany11 (A M : Mat K) : Mat K := ⟨M.rows, 1, fun j _ => M.e j 0 * A.e 0 0⟩
 
-/-- fmatrix.hh `rightmultiplyany`: `C[i][j] += this[i][k]*M[k][j]`, `M` is cols x l -/
-def rightmultiplyany (A M : Mat K) : Mat K :=
-  ⟨A.rows, M.cols, fun i j => sumLoop A.cols (fun k => A.e i k * M.e k j)⟩
+/-- fmatrix.hh `rightmultiplyany(M)`: `M` is cols x l; the nest `Gen.psig_fmRightmultiplyany` on a fresh `C` -/
+def rightmultiplyany (A M : Mat K) : Mat K := prodSem Gen.psig_fmRightmultiplyany A M (zeroMat A.rows M.cols)
 
 /-- FieldMatrix<K,1,1>::rightmultiplyany: `C[0][j] = M[0][j]*_data[0]` -/
 def rightmultiplyany11 (A M : Mat K) : Mat K := ⟨1, M.cols, fun _ j => M.e 0 j * A.e 0 0⟩
 
-/-- FMatrixHelp::multTransposedMatrix: `ret[i][j] += matrix[k][i]*matrix[k][j]`, k < rows -/
-def multTransposedMatrix (A : Mat K) : Mat K :=
-  ⟨A.cols, A.cols, fun i j => sumLoop A.rows (fun k => A.e k i * A.e k j)⟩
+/-- FMatrixHelp::multMatrix(A, B, ret): the nest `Gen.psig_multMatrix` on the caller's `ret` -/
+def multMatrix (A B ret : Mat K) : Mat K := prodSem Gen.psig_multMatrix A B ret
 
-/-- DenseMatrixHelp::multAssign: `ret[i] = 0; ret[i] += matrix[i][j]*x[j]` -/
-def multAssign (A : Mat K) (x : Nat → K) : Nat → K := fun i => sumLoop A.cols (fun j => A.e i j * x j)
+/-- FMatrixHelp::multTransposedMatrix(matrix, ret): the nest `Gen.psig_multTransposedMatrix` (both factors read `matrix`) -/
+def multTransposedMatrix (A ret : Mat K) : Mat K := prodSem Gen.psig_multTransposedMatrix A A ret
 
-/-- FMatrixHelp::multAssignTransposed: `ret[i] = 0; ret[i] += matrix[j][i]*x[j]` -/
-def multAssignT (A : Mat K) (x : Nat → K) : Nat → K := fun i => sumLoop A.rows (fun j => A.e j i * x j)
+/-- DenseMatrixHelp::multAssign(matrix, x, ret): the loop nest `Gen.sig_multAssign` on the caller's `ret` -/
+def multAssign (A : Mat K) (x : Nat → K) (ret : Vec K) : Vec K :=
+  kernelSem Gen.sig_multAssign (fun z => z) A.rows A.cols A.e 0 x ret
+
+/-- FMatrixHelp::multAssignTransposed(matrix, x, ret): the loop nest `Gen.sig_multAssignTransposed` -/
+def multAssignT (A : Mat K) (x : Nat → K) (ret : Vec K) : Vec K :=
+  kernelSem Gen.sig_multAssignTransposed (fun z => z) A.rows A.cols A.e 0 x ret
 
 /-! ### conversion between representations -/
 
 /-- `FieldMatrix / DynamicMatrix = other representation` (DenseMatrixAssigner): rows are copied; a diagonal matrix is
 assigned as `dense = 0; dense[i][i] = diagonal[i]` -/
 def assignFrom : Rep K → Mat K
-  | .diag n d => forN n (fun i (M : Mat K) => ⟨M.rows, M.cols, fun a b => if a = i ∧ b = i then d i else M.e a b⟩) ⟨n, n, fun _ _ => 0⟩
+  | .diag n d => forN n (fun i (M : Mat K) => M.upd i i (d i)) (zeroMat n n)
   | r => r.toFull
 
 /-! ### transposition -/
 
-/-- `FieldMatrix::transposed`, `DynamicMatrix::transposed`: `AT[j][i] = this[i][j]` -/
-def transposed (A : Mat K) : Mat K := transposeMat A
+/-- `FieldMatrix::transposed`: the nest `Gen.tsig_fm` (`AT[j][i] = this[i][j]`) on a fresh `AT` -/
+def transposed (A : Mat K) : Mat K := transSem Gen.tsig_fm A (zeroMat A.cols A.rows)
+
+/-- `DynamicMatrix::transposed`: the nest `Gen.tsig_dyn` on `AT(M(), N())` -/
+def transposedDyn (A : Mat K) : Mat K := transSem Gen.tsig_dyn A (zeroMat A.cols A.rows)
 
 /-- `transposed()` / `transpose()` / `asDense()` per representation, as a full matrix
 (diagonal and 1x1 matrices return themselves) -/
 def Rep.transposedFull (r : Rep K) : Mat K := transposeMat r.toFull
 
-/-! ### vector-space operations on matrices (densematrix.hh, fmatrix.hh) -/
+/-! ### vector-space operations on vectors (densevector.hh: the elementwise loops `Gen.vsig_*`) -/
 
-def madd (A B : Mat K) : Mat K := ⟨A.rows, A.cols, fun i j => A.e i j + B.e i j⟩
-def msub (A B : Mat K) : Mat K := ⟨A.rows, A.cols, fun i j => A.e i j - B.e i j⟩
-/-- `*= k` and `matrix * scalar` -/
-def mscale (A : Mat K) (k : K) : Mat K := ⟨A.rows, A.cols, fun i j => A.e i j * k⟩
-/-- `scalar * matrix` -/
-def mscaleL (k : K) (A : Mat K) : Mat K := ⟨A.rows, A.cols, fun i j => k * A.e i j⟩
-def mdiv (A : Mat K) (k : K) : Mat K := ⟨A.rows, A.cols, fun i j => A.e i j / k⟩
-/-- `axpy(a, X)`: `this[i][j] += a * X[i][j]` -/
-def maxpy (A : Mat K) (a : K) (X : Mat K) : Mat K := ⟨A.rows, A.cols, fun i j => A.e i j + a * X.e i j⟩
+/-- `*this += x` -/
+def vPlusAssign (t : Vec K) (x : Nat → K) : Vec K := elemSem Gen.vsig_plusAssign t.n t.get 0 x t
+/-- `*this -= x` -/
+def vMinusAssign (t : Vec K) (x : Nat → K) : Vec K := elemSem Gen.vsig_minusAssign t.n t.get 0 x t
+/-- `*this += k` -/
+def vPlusAssignScalar (t : Vec K) (k : K) : Vec K := elemSem Gen.vsig_plusAssignScalar t.n t.get k (fun _ => 0) t
+/-- `*this -= k` -/
+def vMinusAssignScalar (t : Vec K) (k : K) : Vec K := elemSem Gen.vsig_minusAssignScalar t.n t.get k (fun _ => 0) t
+/-- `*this *= k` -/
+def vTimesAssign (t : Vec K) (k : K) : Vec K := elemSem Gen.vsig_timesAssign t.n t.get k (fun _ => 0) t
+/-- `*this /= k` -/
+def vDivAssign (t : Vec K) (k : K) : Vec K := elemSem Gen.vsig_divAssign t.n t.get k (fun _ => 0) t
+/-- `this->axpy(a, x)` -/
+def vAxpy (t : Vec K) (a : K) (x : Nat → K) : Vec K := elemSem Gen.vsig_axpy t.n t.get a x t
+/-- unary minus: `result = *this; result[i] = -asImp()[i]` -/
+def vNeg (t : Vec K) : Vec K := elemSem Gen.vsig_neg t.n t.get 0 (fun _ => 0) t
+
+def applyVia : ViaAssign → Vec K → (Nat → K) → Vec K
+  | .plusAssign => vPlusAssign
+  | .minusAssign => vMinusAssign
+
+/-- `a + b`: `z = a; return z += b` (which compound assignment: read from the source) -/
+def vPlus (a : Vec K) (b : Nat → K) : Vec K := applyVia Gen.vplusVia a b
+/-- `a - b` -/
+def vMinus (a : Vec K) (b : Nat → K) : Vec K := applyVia Gen.vminusVia a b
+
+/-- fvector.hh `vector * scalar`: `result[i] = vector[i] * scalar` -/
+def vscale (x : Nat → K) (k : K) : Nat → K := fun i => x i * k
+/-- fvector.hh `scalar * vector`: `result[i] = scalar * vector[i]` -/
+def vscaleL (k : K) (x : Nat → K) : Nat → K := fun i => k * x i
+/-- fvector.hh `vector / scalar` -/
+def vdiv (x : Nat → K) (k : K) : Nat → K := fun i => x i / k
+
+/-- the scalar `dot(a,b)` of dotproduct.hh -/
+def scalarDot (c : ConjArg) (conj : K → K) (a b : K) : K :=
+  match c with
+  | .first => conj a * b
+  | .second => a * conj b
+  | .none => a * b
+
+def ordered (o : ArgOrder) (s x : K) : K × K :=
+  match o with
+  | .selfX => (s, x)
+  | .xSelf => (x, s)
+
+/-- `operator*` (dotT): `result(0); result += (*this)[i]*x[i]` -/
+def vdotT (n : Nat) (a b : Nat → K) : K :=
+  sumLoop n (fun i => (ordered Gen.vdotTOrder (a i) (b i)).1 * (ordered Gen.vdotTOrder (a i) (b i)).2)
+
+/-- `dot`: `result(0); result += Dune::dot((*this)[i], x[i])`; `cplx` selects the overload of the scalar dot
+(field type different from its real type) -/
+def vdot (cplx : Bool) (conj : K → K) (n : Nat) (a b : Nat → K) : K :=
+  sumLoop n (fun i => scalarDot (if cplx then Gen.scalarDotComplex else Gen.scalarDotReal) conj
+    (ordered Gen.vdotOrder (a i) (b i)).1 (ordered Gen.vdotOrder (a i) (b i)).2)
+
+/-! ### vector-space operations on matrices (densematrix.hh: row-wise delegation to the vector operations) -/
+
+/-- row `i` of a matrix as a vector that is written to -/
+def Mat.row (A : Mat K) (i : Nat) : Vec K := ⟨A.cols, A.e i⟩
+
+/-- `for i < rows: (*this)[i] (op) ...` -/
+def rowwise (A : Mat K) (f : Nat → Vec K → Vec K) : Mat K := ⟨A.rows, A.cols, fun i => (f i (A.row i)).get⟩
+
+/-- `*this += B` -/
+def madd (A B : Mat K) : Mat K := rowwise A fun i r => vPlusAssign r (B.e i)
+/-- `*this -= B` -/
+def msub (A B : Mat K) : Mat K := rowwise A fun i r => vMinusAssign r (B.e i)
+/-- `*this *= k` -/
+def mscale (A : Mat K) (k : K) : Mat K := rowwise A fun _ r => vTimesAssign r k
+/-- `*this /= k` -/
+def mdiv (A : Mat K) (k : K) : Mat K := rowwise A fun _ r => vDivAssign r k
+/-- `axpy(a, X)` -/
+def maxpy (A : Mat K) (a : K) (X : Mat K) : Mat K := rowwise A fun i r => vAxpy r a (X.e i)
+/-- unary minus: `result = *this; result[i][j] = -asImp()[i][j]` -/
 def mneg (A : Mat K) : Mat K := ⟨A.rows, A.cols, fun i j => - A.e i j⟩
 
-/-! ### vector-space operations on vectors (densevector.hh, fvector.hh); `n` = size -/
-
-def vadd (x y : Nat → K) : Nat → K := fun i => x i + y i
-def vsub (x y : Nat → K) : Nat → K := fun i => x i - y i
-def vneg (x : Nat → K) : Nat → K := fun i => - x i
-def vaddScalar (x : Nat → K) (k : K) : Nat → K := fun i => x i + k
-def vsubScalar (x : Nat → K) (k : K) : Nat → K := fun i => x i - k
-/-- `*= k`, `vector * scalar` -/
-def vscale (x : Nat → K) (k : K) : Nat → K := fun i => x i * k
-/-- `scalar * vector` -/
-def vscaleL (k : K) (x : Nat → K) : Nat → K := fun i => k * x i
-def vdiv (x : Nat → K) (k : K) : Nat → K := fun i => x i / k
-/-- `axpy(a, x)`: `this[i] += a * x[i]` -/
-def vaxpy (y : Nat → K) (a : K) (x : Nat → K) : Nat → K := fun i => y i + a * x i
-/-- `operator*` (dotT): `result += this[i]*x[i]`, no conjugation -/
-def vdotT (n : Nat) (a b : Nat → K) : K := sumLoop n (fun i => a i * b i)
-/-- `dot`: `result += Dune::dot(this[i], x[i]) = conj(this[i]) * x[i]` — conjugates the FIRST argument -/
-def vdot (conj : K → K) (n : Nat) (a b : Nat → K) : K := sumLoop n (fun i => conj (a i) * b i)
+/-- fmatrix.hh `FieldMatrix + FieldMatrix`: `result[i][j] = matrixA[i][j] + matrixB[i][j]` -/
+def mplus (A B : Mat K) : Mat K := ⟨A.rows, A.cols, fun i j => A.e i j + B.e i j⟩
+/-- fmatrix.hh `FieldMatrix - FieldMatrix` -/
+def mminus (A B : Mat K) : Mat K := ⟨A.rows, A.cols, fun i j => A.e i j - B.e i j⟩
+/-- fmatrix.hh `matrix * scalar` -/
+def mtimes (A : Mat K) (k : K) : Mat K := ⟨A.rows, A.cols, fun i j => A.e i j * k⟩
+/-- fmatrix.hh `scalar * matrix` -/
+def mltimes (k : K) (A : Mat K) : Mat K := ⟨A.rows, A.cols, fun i j => k * A.e i j⟩
+/-- fmatrix.hh `matrix / scalar` -/
+def mover (A : Mat K) (k : K) : Mat K := ⟨A.rows, A.cols, fun i j => A.e i j / k⟩
 
 end
 
@@ -194,5 +264,18 @@ def veq (n : Nat) (x y : Nat → K) : Bool := allN n (fun i => decide (x i = y i
 def meq (A B : Mat K) : Bool := allN A.rows (fun i => veq A.cols (A.e i) (B.e i))
 
 end
+
+/-- the four order relations of FieldVector<K,1> (fvector.hh) -/
+inductive OrdRel where
+  | lt | le | gt | ge
+  deriving DecidableEq, Repr
+
+/-- `a[0] < b`, `a[0] <= b`, `a[0] > b`, `a[0] >= b` decided with the `<` of the scalar type (a linear order) -/
+def ordRel {K : Type _} (lt : K → K → Bool) (r : OrdRel) (a b : K) : Bool :=
+  match r with
+  | .lt => lt a b
+  | .le => !lt b a
+  | .gt => lt b a
+  | .ge => !lt a b
 
 end DV.C01
